@@ -4,9 +4,14 @@ Driver ops for M5 (`export.*`): the exporter model instantiated at `U := Str`.
 `export.rows`: `{"numbered": bool, "nodes": [{"uuid", "short", "rows": [[payload, obj_id|null]…],
 "edges": [[label, destination|null]…]}…]}` ↦ `{"rows": [{"id","payload","edges":[[from,label]…],
 "goto":[…]}…], "node_ids": […], "obj_ids": […]}` or `{"err": kind}`.
+
+`export.graph`: READING of final rows as a graph (`Rpft/ExportGraph.lean`):
+`{"rows": [{"id", "node": _nodeId|null, "edges": [[from,label]…], "goto": […]}…]}` ↦
+`{"edges": [[src|null,label,dst]…], "groups": [[row id, first row of its node]…], "node_edges": […]}`.
 -/
 import Rpft.Drv.Json
 import Rpft.Export
+import Rpft.ExportGraph
 namespace Rpft.Drv.ExportD
 open Rpft.Drv
 open Lean Rpft Rpft.Export
@@ -48,8 +53,26 @@ def rowJ (r : RowS) : Json :=
     ("edges", Json.arr (r.edges.map (fun e => Json.arr #[strJ e.1, strJ e.2])).toArray),
     ("goto", strListJ r.goto)]
 
+def asGraphRow (j : Json) : Except String (RowS × Option Str) := do
+  let id ← getStr j "id"
+  let node ← asOptId ((j.getObjVal? "node").toOption.getD Json.null)
+  let edges ← (← getArr j "edges").toList.mapM (fun e => do
+    let a ← e.getArr?
+    pure ((← asStr (← arrAt a 0)), (← asStr (← arrAt a 1))))
+  let goto ← (← getArr j "goto").toList.mapM asStr
+  pure ({ id, payload := [], edges, goto }, node)
+
+def sedgeJ (e : SEdge Str) : Json := Json.arr #[optStrJ e.src, strJ e.label, strJ e.dst]
+
 def handleExport (op : String) (j : Json) : Except String Json := do
   match op with
+  | "export.graph" => do
+    let rows ← (← getArr j "rows").toList.mapM asGraphRow
+    let es := edgesOfS (rows.map (·.1))
+    let g := groupRows ((rows.filter (fun r => r.1.goto.isEmpty)).map (fun r => (r.1.id, r.2, r.1.cells)))
+    pure (Json.mkObj [("edges", Json.arr (es.map sedgeJ).toArray),
+      ("groups", Json.arr (g.map (fun p => Json.arr #[strJ p.1, strJ p.2])).toArray),
+      ("node_edges", Json.arr ((nodeEdges g es).map sedgeJ).toArray)])
   | "export.rows" => do
     let nodes ← (← getArr j "nodes").toList.mapM asNode
     let numbered := getBoolD j "numbered" false
